@@ -84,6 +84,9 @@ def _reward_wrappers():
         W.ClipReward(_box_env(), -1.0, 1.0)
         out["ClipReward"] = (_box_env, lambda e: W.ClipReward(e, -1.0, 1.0))
         out["TimeLimit(TransformReward)"] = (_box_env, lambda e: W.TimeLimit(W.TransformReward(e, lambda r: 2.0 * r), 5))
+        out["ClipReward(TimeLimit)"] = (_box_env, lambda e: W.ClipReward(W.TimeLimit(e, 5), -1.0, 1.0))
+        out["RescaleObservation(ClipReward(TimeLimit))"] = (_bounded_obs_env, lambda e: W.RescaleObservation(W.ClipReward(W.TimeLimit(e, 5), -1.0, 1.0)))
+        out["TransformReward(TimeLimit(ClipAction))"] = (_box_env, lambda e: W.TransformReward(W.TimeLimit(W.ClipAction(e), 4), lambda r: r - 1.0))
     except Exception:
         pass  # constructibility of reward wrappers is C13's obligation
     return out
@@ -146,6 +149,47 @@ def _native_replay(stack_name, which):
     return replay
 
 
+def _native_truncation_replay(stack_name):
+    """R1: the real stack over a deterministic generic environment whose own terminal / truncate flags are forced False (the decoy `unwrapped` likewise), stepped eagerly from a
+    reset: the truncated flag must be raised exactly when the innermost TimeLimit level reaches its limit and the returned state must then be fresh (counters 0)."""
+    mk, build = STACKS[stack_name]
+
+    def replay(model):
+        from lvc import opaque
+        E = build(mk())
+        limits, e = [], E
+        while hasattr(e, "env"):
+            if isinstance(e, W.TimeLimit):
+                limits.append(int(e.max_episode_steps))
+            e = e.env
+        if not limits:
+            return dict(reproduced=False, note="no TimeLimit level in this stack")
+        L = min(limits)
+        old_ik, old_ov = opaque.IGNORE_KEYS, dict(opaque.OVERRIDES)
+        opaque.IGNORE_KEYS = True
+        for nm in ("env.terminal", "env.truncate", "decoy.terminal", "decoy.truncate"):
+            opaque.OVERRIDES[nm] = [np.asarray(False)]
+        try:
+            with jax.disable_jit():
+                s, _, _ = E.reset(key=jax.random.key(0))
+                a = jnp.zeros(E.action_space.shape, jnp.float32) if isinstance(E.action_space, Box) else jnp.asarray(0)
+                flags = []
+                for t in range(1, 2 * L + 2):
+                    s, _, _, term, trunc, _ = E.step(s, a, key=jax.random.key(t))
+                    flags.append(bool(trunc))
+                    counters = [int(l) for p, l in jax.tree_util.tree_flatten_with_path(s)[0] if "step_count" in jax.tree_util.keystr(p)]
+                    expected = (t % L == 0)
+                    if bool(trunc) != expected or (expected and any(counters)) or bool(term):
+                        return dict(reproduced=True, route="R1 (real wrapper stack over a deterministic generic environment, inner flags forced False, eager steps from a reset)",
+                                    inputs=dict(stack=stack_name, smallest_time_limit=L, step=t), observed=dict(truncated_flags_so_far=flags, expected_truncated=expected, counters_in_returned_state=counters))
+            return dict(reproduced=False, note=f"truncation raised exactly every {L} steps; counters restart")
+        finally:
+            opaque.IGNORE_KEYS = old_ik
+            opaque.OVERRIDES.clear()
+            opaque.OVERRIDES.update(old_ov)
+    return replay
+
+
 def unit_stack(name):
     def unit(S):
         S.under_contract(F_STEP, F_RESET)
@@ -169,6 +213,19 @@ def unit_stack(name):
             S.prove(f"step/{lab}", ctx, goal, function=F_STEP, holes=holes, replay=_native_replay(name, "step"),
                     what=f"[{name}] step's {lab} equals the spec (transition taken; fresh initial state iff terminal|truncated; "
                          f"observation of the returned state)")
+        # end-to-end truncation through the stack: the stack's truncate is the base environment's truncate of the inner-most state OR any TimeLimit level having reached its limit
+        def spec_trunc(E, s):
+            t, e, st = jnp.asarray(False), E, s
+            while hasattr(e, "env"):
+                if isinstance(e, W.TimeLimit):
+                    t = t | (st.step_count >= e.max_episode_steps)
+                e, st = e.env, st.env_state
+            return t | e.truncate(st)
+        if hasattr(E0, "env"):
+            tr_real = run(ctx, lambda e, s: e.truncate(s), env_in, s_in)
+            tr_spec = run(ctx, spec_trunc, env_in, s_in)
+            S.prove("truncate/through-the-stack", ctx, tr_real.scalar() == tr_spec.scalar(), function=F_STEP, replay=_native_truncation_replay(name),
+                    what=f"[{name}] the stack's truncate flag is the base environment's OR a TimeLimit level at its limit - every wrapper asks the object it wraps, none skips a level")
         # counter restart + freshly drawn inner-most state on a done step
         new_state = real[0]
         term, trunc = real[3].scalar(), real[4].scalar()
